@@ -27,7 +27,9 @@ class UnitSystem:
     ) -> None:
         self._id = id
         self._caption = caption
-        self._units_mapping = units_mapping
+        # Own copy: the same dict may be given to several unit systems (or to the manager's
+        # template), and changing the default unit of one must not silently change the others.
+        self._units_mapping = dict(units_mapping)
         self._read_only = read_only
         self.on_default_unit: callback.Callback2[str, Optional[str]] = callback.Callback2()
 
